@@ -157,3 +157,15 @@ Theorem C10_get_of_source_releases_lock n k s :
   (forall s', ~ step n k ChanFacts.source_fixed s s') -> final s.
 Proof. exact (ChanFacts.source_get_releases_lock n k s). Qed.
 Print Assumptions C10_get_of_source_releases_lock.
+
+(* a cut-off session is torn down (deleteClient) while other sessions announce, program and flush: the order in
+   which the server's locks are taken while others are held - in the functions of this run's source, callees
+   included - has no cycle, a recursive read acquisition counting as one (a writer queued in between blocks the
+   second read for ever), so no set of RPCs can wedge each other (C11_ranked_locks_no_deadlock_cycle is the
+   general argument) *)
+From GV.Conc Require LockDefs LockOrder.
+From GV.Generated Require LockTable.
+Theorem C10_no_lock_cycle : LockOrder.cyclic_locks LockTable.lock_table = [].
+Proof. vm_compute. reflexivity. Qed.
+Print Assumptions C10_no_lock_cycle.
+
